@@ -1,5 +1,5 @@
 (* Dispatch entries (name -> sx wrapper) for the Find models. *)
-From BFG Require Import Base.Chars Base.Sx Find.Glob Find.Filter Find.Walk.
+From BFG Require Import Base.Chars Base.Sx Find.Glob Find.Filter Find.Walk Find.Bases.
 From Coq Require Import String.
 Local Open Scope N_scope.
 
@@ -54,7 +54,7 @@ Definition sx_ents (l : list (path * fres)) : sx := sx_list (fun e => L [sx_path
 Definition sx_pkey (k : pkey) : sx := L [A (fst k); sx_list sx_str (snd k)].
 
 (* session: a sequence of find_from_filter calls against one file system and one build state;
-   call = [filter spec; start paths; dist; cache] *)
+   call = [filter spec; start paths or empty; dist; cache] *)
 Fixpoint run_session (fixed : bool) (fs : fsys) (calls : list sx) (st : fstate) : list sx * fstate :=
   match calls with
   | [] => ([], st)
@@ -62,7 +62,12 @@ Fixpoint run_session (fixed : bool) (fs : fsys) (calls : list sx) (st : fstate) 
       match un_filter (nth_sx 0 c) with
       | None => let '(o, st') := run_session fixed fs r st in (L [] :: o, st')
       | Some f =>
-          let '(res, st1) := find_from_filter fixed f (map (fun p => start_of fs (un_path p)) (un_list (nth_sx 1 c)))
+          (* an empty list of start paths (FileFilter.bases() is never empty) = the roots chosen by the model *)
+          let roots := match un_list (nth_sx 1 c) with
+                       | [] => match bases f with Some bs => bs | None => [] end
+                       | l => map un_path l
+                       end in
+          let '(res, st1) := find_from_filter fixed f (map (start_of fs) roots)
                                               (un_bool (nth_sx 2 c)) (un_bool (nth_sx 3 c)) st in
           let '(o, st') := run_session fixed fs r st1 in
           (L [sx_list sx_path res] :: o, st')
@@ -89,6 +94,18 @@ Definition table : list (string * (sx -> sx)) := [
                 let starts := map (fun p => start_of (un_fsys (nth_sx 1 a)) (un_path p)) (un_list (nth_sx 2 a)) in
                 let prune := match un_N (nth_sx 3 a) with 0 => prune_real f | 1 => prune_doc f | _ => prune_none end in
                 L [sx_ents (find_files prune (fmatch f) starts); sx_list sx_path (seen_dirs prune starts)])
+             (un_filter (nth_sx 0 a)));
+  (* FileFilter.bases(): [filter spec] -> outer option = FileFilter constructor, inner = a base constructor *)
+  ("find.bases", fun a =>
+      sx_opt (fun f : ffilter => sx_opt (sx_list sx_path) (bases f)) (un_filter (nth_sx 0 a)));
+  (* _find_files with the roots chosen by the model: [filter spec; file system; policy] *)
+  ("find.find", fun a =>
+      sx_opt (fun f : ffilter =>
+                let prune := match un_N (nth_sx 2 a) with 0 => prune_real f | 1 => prune_doc f | _ => prune_none end in
+                match find_files_of prune f (un_fsys (nth_sx 1 a)), seen_dirs_of prune f (un_fsys (nth_sx 1 a)) with
+                | Some ents, Some seen => L [sx_ents ents; sx_list sx_path seen]
+                | _, _ => L []
+                end)
              (un_filter (nth_sx 0 a)));
   ("find.session", fun a =>
       let '(o, st) := run_session (un_bool (nth_sx 0 a)) (un_fsys (nth_sx 1 a)) (un_list (nth_sx 2 a)) (mkst [] [] []) in
